@@ -141,6 +141,13 @@ func (ex *Exec) modelled(st *State, ref string, fn *types.Func, recv *Val, args 
 			}
 			return one(r)
 		}
+	case "github.com/jonboulle/clockwork.Ticker.Reset", "time.(*Ticker).Reset":
+		// the ticker's period from now on (ghost tickerPeriod(ticker), when declared)
+		if g, ok := ex.eng.cs.Ghosts["tickerPeriod"]; ok && recv != nil && len(args) == 1 && sc == nil {
+			ex.safety(st, "ticker-interval-positive", pos, "(> "+args[0].S+" 0)")
+			ex.writeLoc(st, ex.ghostLoc(g, []*Val{recv}), ex.intVal(args[0].S, types.Typ[types.Int]))
+			return none()
+		}
 	case "time.Since":
 		ex.eng.nowN++
 		now := ex.freshVal(args[0].T, fmt.Sprintf("now%d", ex.eng.nowN))
